@@ -160,6 +160,55 @@ CLAIMS["C18"] = {
     "ref": "DESIGN.md section 7 C18",
 }
 
+CLAIMS["C17"] = {
+    "text": "Eighteen Coq theorems (Props/C17.v). Input side: rr_address accepts exactly 0..size address octets and zero-fills; an "
+            "APL item / ECS body is accepted iff family is 1/2, octet count <= size and no bit beyond the prefix is set after "
+            "zero-fill (bit-level prefix_ok of C12), with family, prefix, negation (bit 7 of the AFDLENGTH octet, 7-bit length) "
+            "and address returned unchanged; the exact error for each rejected class; plus the property's grid as theorems by "
+            "complete evaluation inside Coq (IPv4: 256 prefixes x 6 octet counts x 67 address patterns x both negation flags; "
+            "IPv6: 256 x 18 x 259). Output side: the encoder emits EXACTLY min(p/8+1, size) address octets (p = prefix for APL, "
+            "max(source,scope) for ECS), preserves family/prefix/negation, and what it emits decodes to the same item; this count "
+            "is proved to differ from RFC 7871 (ceil(source/8)) and RFC 3123 (no trailing zero octets) with witnesses and "
+            "characterised exactly - known findings KF2 and KF3. Tie: the grid through D RR / E RR cases, two-sided reference "
+            "decoder verdicts, emitted count compared with the RFC count and attributed to KF2/KF3 only when it equals the "
+            "characterised count.",
+    "note": "The output clause of C17 is violated by the pinned tree (KF2, KF3, not repaired: ECS and APL share one helper and ECS needs a decision for scope > source). " + NOTE_COMMON,
+    "technique": "Coq proof (value-domain iff, exact emitted-count characterisation, refutation witnesses, finite grid by vm_compute) + two-sided reference-decoder oracle with known-finding classes",
+    "ref": "DESIGN.md section 7 C17",
+}
+
+CLAIMS["C03"] = {
+    "text": "Seven Coq theorems (Props/C03.v): for every octet string, if the model of the library's decoder accepts it (whole "
+            "message, RR, question, flags, name) then the INDEPENDENT reference decoder Spec/Wire.v - written from the RFCs in a "
+            "different style: pure parsers over absolute offsets, its own RDATA format table, names by reference expansion, header "
+            "bits by testbit, prefix validity by mod 2^k, code points from the hand-written IANA registries - accepts it too and "
+            "yields the SAME value (every header bit, count, name after expansion, type, class, TTL, every RDATA field, option and "
+            "parameter); the generated per-type tables are proved equal to the RFC table; the TTL/class/type accessors agree with "
+            "the reference reading of the wire header. Proved by a correspondence relation closed under all reader combinators, "
+            "for all 46 record types, EDNS options, APL, SVCB; unbounded. Tie: the implementation is compared DIRECTLY with the "
+            "extracted Spec/Wire.v (W cases: library accepts => reference accepts the same value), with the model (D cases: "
+            "verdict, value, accessors) and with a third, Python reference decoder (oracle), on repository vectors, structured "
+            "messages in every layout, near-miss/byte-level mutations and over-acceptance probes.",
+    "note": "Leniencies shared by the reference grammar and the library are not judged (forward pointers, 65,536-octet message, unsorted mandatory list on input; DESIGN.md 8.3). Spec/Wire.v and Spec/Iana.v are the audited reading of the RFCs. " + NOTE_COMMON,
+    "technique": "Coq proof (model decoder refines an independent reference decoder: correspondence relation over parser combinators) + three-way differential check (library / model / Coq reference / Python reference)",
+    "ref": "DESIGN.md section 7 C03",
+}
+CLAIMS["C04"] = {
+    "text": "Twelve Coq theorems (Props/C04.v): completeness - whatever the independent reference decoder Spec/Wire.v accepts (whole "
+            "message, RR, question, flags, name), the model of the library's decoder accepts with the same value; for names the "
+            "exact acceptance condition: accepted iff the reference expansion through at most 17 pointers exists, the labels are "
+            "1..=63 octets of UTF-8, the name has <= 255 wire octets and its own octets end inside the window (any backward or "
+            "forward pointer, any label case). Together with C03 the library model and the reference accept the same language "
+            "with the same meaning. 'Every legal rendering' is tied by the Python reference renderer: random abstract messages "
+            "over the whole vocabulary rendered under every layout choice (plain / greedy / random legal pointers <= 16 hops, case "
+            "flips, address octet counts minimal..full, SvcParam permutations, zero-length fields, sizes to 65,535) must decode "
+            "to exactly that message; W cases compare the implementation directly with the extracted Spec/Wire.v in the "
+            "completeness direction.",
+    "note": "A Gallina renderer with a proof 'every rendering is accepted by Spec/Wire.v' (C04_render_accepted of the plan) is not built; the rendering side is the Python renderer (test), the acceptance side is proved. " + NOTE_COMMON,
+    "technique": "Coq proof (reference decoder refines to the model decoder; exact name acceptance condition) + reference-renderer differential streams + direct library-vs-Coq-reference comparison",
+    "ref": "DESIGN.md section 7 C04",
+}
+
 REASON_PENDING = "check not built yet (work in progress; see DESIGN.md section 10)"
 
 
